@@ -214,14 +214,22 @@ class CoroStart(Awaitable[T_co]):
         first. Returns `True` if the coroutine finished without blocking.
         """
         try:
-            return (
-                self.context.run(self.coro.send, None)
-                if self.context
-                else self.coro.send(None)
-            ), None
+            return self._resume(self.coro.send, None), None
         except BaseException as exception:
             # Coroutine returned without blocking
             return (None, exception)
+
+    def _resume(self, method: Callable[..., Any], *args: Any) -> Any:
+        """
+        Invoke a method of the coroutine (`send`, `throw` or `close`), inside
+        our context if we were given one.  Every resumption of the coroutine
+        must go through here, so that all its code, including exception
+        handlers and cleanup, runs in that context.
+        Note that an empty `Context` is falsy, hence the explicit test for `None`.
+        """
+        if self.context is not None:
+            return self.context.run(method, *args)
+        return method(*args)
 
     def __await__(self) -> Generator[Any, Any, T_co]:
         """
@@ -230,7 +238,7 @@ class CoroStart(Awaitable[T_co]):
         """
         if self.start_result is None:
             # exhausted coroutine, trigger the "cannot reuse" error
-            self.coro.send(None)
+            self._resume(self.coro.send, None)
             assert False, "unreachable"
 
         out_value, exc = self.start_result
@@ -248,24 +256,16 @@ class CoroStart(Awaitable[T_co]):
             try:
                 in_value = yield out_value
             except GeneratorExit:
-                self.coro.close()
+                self._resume(self.coro.close)
                 raise
             except BaseException as exc:
                 try:
-                    out_value = (
-                        self.context.run(self.coro.throw, exc)  # type: ignore
-                        if self.context
-                        else self.coro.throw(exc)
-                    )
+                    out_value = self._resume(self.coro.throw, exc)
                 except StopIteration as exc:
                     return cast(T_co, exc.value)
             else:
                 try:
-                    out_value = (
-                        self.context.run(self.coro.send, in_value)
-                        if self.context
-                        else self.coro.send(in_value)
-                    )
+                    out_value = self._resume(self.coro.send, in_value)
                 except StopIteration as exc:
                     return cast(T_co, exc.value)
 
@@ -286,10 +286,9 @@ class CoroStart(Awaitable[T_co]):
 
         try:
             self.start_result = (
-                self.context.run(self.coro.throw, type(value), value)
-                if self.context
-                else self.coro.throw(type(value), value)
-            ), None
+                self._resume(self.coro.throw, type(value), value),
+                None,
+            )
         except BaseException as exception:
             self.start_result = (None, exception)
         return await self
@@ -313,7 +312,7 @@ class CoroStart(Awaitable[T_co]):
         value = exc if isinstance(exc, BaseException) else exc()
         for i in range(tries):
             try:
-                self.coro.throw(type(value), value)
+                self._resume(self.coro.throw, type(value), value)
             except StopIteration as err:
                 return cast(T_co, err.value)
         else:
@@ -324,7 +323,7 @@ class CoroStart(Awaitable[T_co]):
         Close the coroutine.  It must immediately exit.
         """
         self.start_result = None
-        self.coro.close()
+        self._resume(self.coro.close)
 
     async def aclose(self) -> None:
         """
